@@ -5,6 +5,9 @@ src/api/rule.rs).
   them, so `regex_is_tokens` is re-proved against what the source says now);
 * `Marker::format` = `@{}`, the two sorts (markers: descending name.len(); variables: descending key.len() then ascending key), the guarded replace and the `replacen(.., 1)` of the capture
   string, and the one-pass scan of `StaticOrDynamic::replace` (compared token for token, comments stripped) must still have the shapes the model mirrors: anything else fails closed;
+* the percent-encode sets applied by `Rule::markers()` to a marker expression and by `Rule::path_and_query` to the source
+  path are resolved from the call sites to the bytes they add to CONTROLS and emitted (`markerRegexEncodeSet`,
+  `markerPathEncodeSet`): the model encodes with them;
 * the transformer kinds dispatched by `Transformer::to_transform` and the option keys of replace / slice are emitted
   (Props/C10 `transformer_kinds_tie` checks that the model recognises exactly these).
 """
@@ -47,6 +50,35 @@ def extract(read, fail, lean_str, lean_list):
     if body != want:
         fail("marker/mod.rs: StaticOrDynamic::replace is no longer the one-pass scan the model mirrors: " + body[:200])
     r = read("src/api/rule.rs")
+    # which percent-encode set Rule::markers() applies to a marker expression, and Rule::path_and_query to the source path:
+    # the set is resolved to the bytes it adds to CONTROLS (a marker expression must reach the regex engine verbatim except
+    # for control and non-ASCII bytes)
+    def set_bytes(name):
+        mm = re.search(r"const\s+" + name + r"\s*:\s*&AsciiSet\s*=\s*([^;]*);", r)
+        if not mm:
+            fail(f"api/rule.rs: encode set {name} not found")
+        body = mm.group(1).strip()
+        if body == "CONTROLS":
+            return []
+        if not re.fullmatch(r"&CONTROLS((?:\s*\.add\(b'(?:\\.|[^'\\])'\))*)", body):
+            fail(f"api/rule.rs: unexpected definition of {name}: {body}")
+        out = []
+        for lit in re.findall(r"\.add\(b'((?:\\.|[^'\\]))'\)", body):
+            if lit.startswith("\\"):
+                esc = {"\\\\": 0x5C, "\\'": 0x27, "\\n": 0x0A, "\\r": 0x0D, "\\t": 0x09, "\\0": 0x00}
+                if lit not in esc:
+                    fail(f"api/rule.rs: cannot read byte literal b'{lit}' in {name}")
+                out.append(esc[lit])
+            else:
+                out.append(ord(lit))
+        return out
+    mk = re.findall(r"let regex = utf8_percent_encode\(marker\.regex\.as_str\(\), (\w+)\)\.to_string\(\);", r)
+    if len(mk) != 1:
+        fail(f"api/rule.rs: Rule::markers() no longer encodes marker.regex with one named set: {mk}")
+    pk = re.findall(r"let mut path = utf8_percent_encode\(self\.source\.path\.as_str\(\), (\w+)\)\.to_string\(\);", r)
+    if len(pk) != 1:
+        fail(f"api/rule.rs: Rule::path_and_query no longer encodes source.path with one named set: {pk}")
+    marker_set, path_set = set_bytes(mk[0]), set_bytes(pk[0])
     if not re.search(r"variables\.sort_by\(\|\(key_a, _\), \(key_b, _\)\| key_b\.len\(\)\.cmp\(&key_a\.len\(\)\)\.then_with\(\|\| key_a\.cmp\(key_b\)\)\);", r):
         fail("api/rule.rs: the variables are no longer sorted by (descending key.len(), ascending key)")
     t = read("src/api/transformer.rs")
@@ -61,6 +93,8 @@ def extract(read, fail, lean_str, lean_list):
         seg = re.search(r'"' + kind + r'" => (.*?)(?=\n\s{16}"\w+" =>|\Z)', body.group(1), re.S).group(1)
         opts[kind] = sorted(set(re.findall(r'options\.contains_key\("(\w+)"\)', seg)))
     out = ["-- src/marker/mod.rs: format strings of the marker groups; src/api/transformer.rs: dispatched kinds and their option keys"]
+    out.append(f"def markerRegexEncodeSet : List Nat := [{', '.join(str(b) for b in marker_set)}]  -- {mk[0]}")
+    out.append(f"def markerPathEncodeSet : List Nat := [{', '.join(str(b) for b in path_set)}]  -- {pk[0]}")
     out.append(f"def markerGroupRegexFormat : String × String := ({lean_str(rp)}, {lean_str(rs)})")
     out.append(f"def markerGroupCaptureFormat : String × String × String := ({lean_str(ca)}, {lean_str(cb)}, {lean_str(cc)})")
     out.append(f"def markerTransformerKinds : List String := {lean_list(kinds)}")
